@@ -866,6 +866,33 @@ func (c *Ctx) c03TimeCodec(marshal, unmarshal *load.FuncInfo) {
 		r.Observe("C03.K3", marshal.Name(), "timestamp helpers", "-", "timeToTimestamp/timestampToTime not found; time fields are covered by the correspondence rule only")
 		return
 	}
+	// encoder: the time that is encoded is the parameter itself (no rounding, truncation or zone conversion first): the
+	// restored value must compare like the live one (expiry thresholds, hold durations)
+	{
+		info := enc.Pkg.TypesInfo
+		var param types.Object
+		for _, f := range enc.FuncType().Params.List {
+			for _, nm := range f.Names {
+				param = info.Defs[nm]
+			}
+		}
+		for _, call := range astx.Calls(enc.Body(), false) {
+			fn := astx.Callee(info, call)
+			if fn == nil || astx.RecvNamed(fn) == nil || astx.RecvNamed(fn).Obj().Pkg().Path() != "time" {
+				continue
+			}
+			se, ok := ast.Unparen(call.Fun).(*ast.SelectorExpr)
+			if !ok {
+				continue
+			}
+			switch fn.Name() {
+			case "UnixNano", "Unix", "IsZero", "UnixMilli", "UnixMicro":
+				id, isID := ast.Unparen(se.X).(*ast.Ident)
+				r.Check(isID && param != nil && astx.Obj(info, id) == param, "C03.K3", enc.Name(), "encodes the time it was given ("+fn.Name()+")", c.P.Pos(call.Pos()), "called on the parameter itself",
+					"the snapshot stores a time derived from the field (rounded, truncated, converted) instead of the field: a restored node compares a different LastActivity / hold time than the nodes that applied the log")
+			}
+		}
+	}
 	// encoder: which time.Time method produces UnixNano field
 	encMethods := map[string]bool{}
 	for _, call := range astx.Calls(enc.Body(), false) {
